@@ -36,17 +36,33 @@ class Double(Step):
         return {'out': {'d': 2 * states['pool']['m']}}
 
 
+class Bump(Step):
+    def ports_schema(self):
+        return {'out': {'x': {'_default': 0, '_updater': 'accumulate', '_emit': True}}}
+    def next_update(self, timestep, states):
+        return {'out': {'x': 1}}
+
+
+class Follow(Step):
+    # in one execution layer with Bump it reads x from BEFORE Bump ran; after Bump it reads the new x
+    def ports_schema(self):
+        return {'out': {'x': {'_default': 0}, 'y': {'_default': 0, '_updater': 'set', '_emit': True}}}
+    def next_update(self, timestep, states):
+        return {'out': {'y': states['out']['x']}}
+
+
 class Cell(Composer):
-    defaults = {'rate': 1}
+    defaults = {'rate': 1, 'chain': False}
     def generate_processes(self, config):
         return {'grow': Grow({'rate': config['rate']}), 'leak': Leak()}
     def generate_steps(self, config):
-        return {'double': Double()}
+        return {'double': Double(), 'bump': Bump(), 'follow': Follow()}
     def generate_flow(self, config):
-        return {'double': []}
+        # two root steps of the flow (same layer), or a chain
+        return {'double': [], 'bump': [], 'follow': [('bump',)] if config['chain'] else []}
     def generate_topology(self, config):
         return {'grow': {'pool': ('pool',)}, 'leak': {'pool': ('pool',), 'env': ('env',)},
-                'double': {'pool': ('pool',), 'out': ('out',)}}
+                'double': {'pool': ('pool',), 'out': ('out',)}, 'bump': {'out': ('out',)}, 'follow': {'out': ('out',)}}
 
 
 def tget(d, path):
@@ -108,7 +124,7 @@ def check(sd):
     fails = []
     # ---- embedding: generate at a path == generate at the root
     path = tuple(rng.sample(['lab', 'dish', 'x'], rng.choice([0, 1, 2])))
-    comp = Cell({'rate': rng.choice([1, 3])})
+    comp = Cell({'rate': rng.choice([1, 3]), 'chain': rng.random() < 0.4})
     c_root = comp.generate()
     c_path = comp.generate(path=path)
     for part in ('processes', 'steps', 'flow', 'topology'):
